@@ -1,5 +1,6 @@
 import EaModel.Properties.SchedCommon
 import EaModel.Lemmas.Order
+import EaModel.Reentrant
 /-!
 # C09 — due jobs run in chronological order
 
@@ -89,6 +90,20 @@ theorem executions_in_due_order (env : Env) (now : Int) (en : Bool) (ops : List 
     | _ => exact absurd hop (by simp [isWakeup])
   obtain ⟨l, hl, hs, hg⟩ := key
   exact ⟨l, hl, hs, fun d hd => ⟨(hg d hd).2, (hg d hd).1⟩⟩
+
+/-! ### a callable that creates jobs in the middle of a wake-up (`Reentrant.lean`) -/
+
+/-- in a wake-up in which synchronous callables create further jobs, the job that is started always is one with the
+earliest run time among everything waiting in the queue at that moment (jobs created a moment ago included), and the
+queue stays sorted: no job runs before another one that was already waiting with an earlier run time -/
+theorem reentrant_order (spawn : Nat → List Re.J) (now : Int) (fuel : Nat) (q : List Re.J) (hq : Re.Sorted q) :
+    Re.Sorted (Re.run spawn now fuel q []).1 ∧
+    ∀ e ∈ (Re.run spawn now fuel q []).2, ∀ y ∈ e.2, e.1.due ≤ y.due :=
+  Re.run_order spawn now fuel q [] hq (by intro e he; cases he)
+
+/-- queues built by `add_job` (`insort`) are sorted, so the hypothesis of `reentrant_order` holds for them -/
+theorem reentrant_queue_sorted (js : List Re.J) : Re.Sorted (js.foldl Re.insort []) :=
+  Re.foldl_insort_sorted js [] trivial
 
 -- non-vacuity (executable check): three jobs created out of order run in order after the loop was blocked
 #guard ((runOps (initSt {} 0) [.create 1 none (.once 30) [] [], .create 2 none (.once 10) [] [],
